@@ -122,6 +122,7 @@ class WrapCachedDir(WrapFS[_F], typing.Generic[_F]):
         page=None,  # type: Optional[Tuple[int, int]]
     ):
         # type: (...) -> Iterator[Info]
+        self.check()
         _path = abspath(normpath(path))
         cache_key = (_path, frozenset(namespaces or ()))
         if cache_key not in self._cache:
@@ -133,6 +134,7 @@ class WrapCachedDir(WrapFS[_F], typing.Generic[_F]):
 
     def getinfo(self, path, namespaces=None):
         # type: (Text, Optional[Collection[Text]]) -> Info
+        self.check()
         _path = abspath(normpath(path))
         if _path == "/":
             return Info({"basic": {"name": "", "is_dir": True}})
